@@ -594,8 +594,9 @@ class WebSocket:
         """
         close socket, immediately.
         """
-        if self.sock:
-            self.sock.close()
+        sock = self.sock
+        if sock:
+            sock.close()
             self.sock = None
             self.connected = False
 
@@ -608,8 +609,9 @@ class WebSocket:
         try:
             return recv(self.sock, bufsize)
         except (WebSocketConnectionClosedException, ConnectionError):
-            if self.sock:
-                self.sock.close()
+            sock = self.sock
+            if sock:
+                sock.close()
             self.sock = None
             self.connected = False
             raise
